@@ -113,6 +113,20 @@ def close(a, b, rtol):
 
 
 # ------------------------------------------------------------------------------------------------ per-model generic checks
+def rule_points(names):
+    """parameter points at which the name-derived identities are evaluated: the two interior lattice points, plus - for models whose code
+    branches on the order of two times (T and Ts) - a point with the order reversed"""
+    pts_ = [dict(zip(names, default_params(names, v))) for v in (0, 1)]
+    if 'T' in names and 'Ts' in names:
+        q = dict(pts_[0])
+        q['Ts'] = 0.5 * q['T']
+        pts_.append(q)
+        q = dict(pts_[1])
+        q['Ts'] = q['T']
+        pts_.append(q)
+    return pts_
+
+
 def case_model(col, p):
     import dadi
     cat = catalogue()
@@ -201,8 +215,7 @@ def case_model(col, p):
             two = name.replace('_single_gamma', '')
             if two in cat:
                 g, _ = cat[two]
-                for v in (0, 1):
-                    q = dict(zip(names, default_params(names, v)))
+                for q in rule_points(names):
                     q2 = {k: q[k] for k in q if k != 'gamma'}
                     q2['gamma1'] = q2['gamma2'] = q['gamma']
                     a, b = call(f, names, q, d), call(g, list(g.__param_names__), q2, d)
@@ -214,8 +227,7 @@ def case_model(col, p):
         if target in cat and target != name:
             g, _ = cat[target]
             gn = list(g.__param_names__)
-            for v in (0, 1):
-                q = dict(zip(names, default_params(names, v)))
+            for q in rule_points(names):
                 for x in gnames:
                     q[x] = 0.0
                 if all(k in q for k in gn):
